@@ -239,7 +239,10 @@ def check_item(item):
                     'nontrivial': True, 'twin': item.get('twin', False)}
             text_ = p['text']
             if item.get('twin_mode') == 'drop-declaration':
-                text_ = re.sub(r'tff\(predicate_0, type, [^\n]*\n', '', text_, count=1)
+                # remove the last declaration of a predicate type (whatever the declaration is called)
+                decls = list(re.finditer(r'tff\([A-Za-z0-9_]+, type, [^\n]*\$o\)\.\n', text_))
+                if decls:
+                    text_ = text_[:decls[-1].start()] + text_[decls[-1].end():]
             errs, _ = check_problem_text(p['name'], text_)
             real = [e for e in errs if e[0] != 'reader-disagrees-with-tptp4x']
             if not real:
